@@ -118,8 +118,9 @@ def parse_kani_output(out):
     return res
 
 
-def run(pid, tier, repo, root, log):
-    entries = [e for e in registry(root) if pid in e['props'] and (tier == 'thorough' or e.get('tier', 'quick') == 'quick')]
+def run(pid, tier, repo, root, log, pairs_for=()):
+    entries = [e for e in registry(root) if (pid in e['props'] and (tier == 'thorough' or e.get('tier', 'quick') == 'quick'))
+               or (set(e.get('pairs', [])) & set(pairs_for))]
     out = {'obligations': [], 'failures': [], 'bounded': [], 'trusted': [], 'summary': {}, 'cmd': ''}
     if not entries:
         return out
@@ -197,7 +198,7 @@ def run(pid, tier, repo, root, log):
     tsum = 0.0
     for e in entries:
         r = per.get(e['harness'])
-        ob = {'id': e['id'], 'harness': e['harness'], 'complete': e.get('complete', False), 'bound': e.get('bound')}
+        ob = {'id': e['id'], 'harness': e['harness'], 'complete': e.get('complete', False), 'bound': e.get('bound'), 'pairs': e.get('pairs', [])}
         if r is None or r['status'] is None:
             return {'undecided': 'harness %s produced no verdict' % e['harness'], 'detail': raw['out'][-3000:]}
         tsum += r['time'] or 0
@@ -218,7 +219,7 @@ def run(pid, tier, repo, root, log):
                 'id': e['id'], 'harness': e['harness'], 'failed_checks': r['failed_checks'],
                 'kani_output': txt[-3000:], 'concrete_playback': pb[-3000:],
                 'witness': (nat or {}).get('values', ''),
-                'native_replay': nat,
+                'native_replay': nat, 'pairs': e.get('pairs', []),
                 'replayed': bool(nat and nat.get('confirmed')),
             })
         ob['time_s'] = r['time']
